@@ -76,7 +76,8 @@ pub fn run(args: &Args) {
     let mut out = Out::new(&args.out);
     out.rule = "a history on a freshly deployed incentive contract (real incentive_factory + incentive + epoch mock); non-trivial = at least 3 \
                 different operation kinds succeeded, among them an OpenFlow and one of ExpandFlow/Claim/CloseFlow; distinct = by hash of the op list".into();
-    let mut rng = Rng::new(args.seed);
+    // Rng::new seeds linearly (seed s+1 is seed s shifted by one draw); decorrelate the seeds of this property
+    let mut rng = Rng::new(hash64(&[args.seed as u128, 0xC13_5EED]));
     let focus = focus_c12();
     let mut none = |_: &mut Mon, _: &IncWorld, _: &Snap, _: &Op, _: bool, _: &Snap| {};
     if let Some(path) = &args.replay {
